@@ -1737,6 +1737,17 @@ void CppCheck::getErrorMessages(ErrorLogger &errorlogger)
     cppcheck.tooManyConfigsError("",0U);
     // TODO: add functions to get remaining error messages
 
+    // messages that are created directly in CppCheck, the analysis core or the executors and whose ids were missing in --errorlist
+    for (const InternalError::Type type : {InternalError::AST, InternalError::SYNTAX, InternalError::UNKNOWN_MACRO, InternalError::INTERNAL, InternalError::LIMIT, InternalError::INSTANTIATION})
+        errorlogger.reportErr(ErrorMessage::fromInternalError(InternalError(nullptr, "Internal error message", type), nullptr, ""));
+    errorlogger.reportErr(ErrorMessage({}, "", Severity::information, "This file is not analyzed. Cppcheck failed to extract a valid configuration. Use -v for more details.", "noValidConfiguration", Certainty::normal));
+    errorlogger.reportErr(ErrorMessage({}, "", Severity::information, "Limiting analysis of branches. Use --check-level=exhaustive to analyze all branches.", "normalCheckLevelMaxBranches", Certainty::normal));
+    errorlogger.reportErr(ErrorMessage({}, "", Severity::information, "Limiting ValueFlow analysis in function 'f' since it is too complex. Please specify --check-level=exhaustive to perform full analysis.", "checkLevelNormal", Certainty::normal));
+    errorlogger.reportErr(ErrorMessage({}, "", Severity::information, "TemplateSimplifier: max template recursion (100) reached for template 'T<int>'.", "templateRecursion", Certainty::normal));
+    errorlogger.reportErr(ErrorMessage({}, "", Severity::information, "Unmatched suppression: id", "unmatchedSuppression", Certainty::normal));
+    errorlogger.reportErr(ErrorMessage({}, "", Severity::information, "Unmatched suppression: id", "unmatchedPolyspaceSuppression", Certainty::normal));
+    errorlogger.reportErr(ErrorMessage({}, "", Severity::error, "Internal error: Child process crashed with signal 11", "cppcheckError", Certainty::normal));
+
     Settings s;
     s.addEnabled("all");
 
